@@ -33,6 +33,7 @@ DEFAULT_OPAQUE = {
 class Evaluator(PE):
     keep_atom: Optional[Callable[[str], bool]] = None
     profile: Optional[Dict[Any, int]] = None
+    site_nodes: List[Any] = []
     merge_enabled = True
     inline_modules = frozenset({
         "mashumaro.core.meta.code.builder", "mashumaro.core.meta.code.lines",
@@ -59,6 +60,7 @@ class Evaluator(PE):
         fo = set(kw.pop("force_opaque", ())) | DEFAULT_OPAQUE
         fo -= set(kw.pop("allow_inline", ()))
         super().__init__(repo, force_opaque=fo, **kw)
+        self.site_nodes = []
         self.models.setdefault("mashumaro.core.meta.code.builder::CodeBuilder.ensure_object_imported", _m_ensure_object)
         self.models.setdefault("mashumaro.core.meta.code.builder::CodeBuilder.ensure_module_imported", _m_ensure_module)
 
@@ -66,6 +68,12 @@ class Evaluator(PE):
     def emit(self, bid: str, v: V, p: Path, node: ast.AST) -> None:
         t = to_tmpl(v)
         site = (self.cur.key, getattr(node, "lineno", 0))
+        # emission through the add_line wrapper is attributed to the wrapper's caller
+        i = len(self.call_stack) - 1
+        while i > 0 and self.call_stack[i].node.name in ("add_line",) and self.call_stack[i].cls:
+            nd = self.site_nodes[i] if i < len(self.site_nodes) else None
+            site = (self.call_stack[i - 1].key, getattr(nd, "lineno", 0))
+            i -= 1
         self.sites_hit.add(site)
         p.bufs.setdefault(bid, []).append(Line(p.ind.get(bid, 0), t, site))
 
@@ -106,7 +114,8 @@ class Evaluator(PE):
         # in-repo callee with star args: try to inline with positional expansion when the starred value is known
         if isinstance(f, ast.Attribute):
             pass
-        return [(self.sym(ast.unparse(e), e, inherit), p)]
+        r = self.opaque_expr(e, p)
+        return [(Sym(r.name, set(r.tags) | set().union(*[set(i.tags) for i in inherit]) if inherit else r.tags, e), p)]
 
     def opaque_call(self, name: str, args: List[V], kwargs: Dict[str, V], e, inherit: Sequence[V] = ()) -> Sym:
         a = [show(x) for x in args] + [f"{k}={show(v)}" for k, v in kwargs.items()]
@@ -410,7 +419,14 @@ class Evaluator(PE):
             if open_:
                 if els:
                     parts.append(sep)
-                parts.append(Hole(self.sym(f"more({show(args[0])})", e, [args[0]])))
+                convs = set()
+                for el in els:
+                    ps = as_parts(el)
+                    convs.add(ps[0].conv if len(ps) == 1 and isinstance(ps[0], Hole) else "?")
+                conv = convs.pop() if len(convs) == 1 and els else ""
+                if conv == "?":
+                    conv = ""
+                parts.append(Hole(self.sym(f"more({show(args[0])})", e, [args[0]]), conv))
             return [(Tmpl(parts), p)]
         if attr == "format" and not kwargs:
             # positional '{}' substitution only
@@ -547,6 +563,10 @@ class Evaluator(PE):
         if a.kwarg:
             env[a.kwarg.arg] = Dct("dict", {k: (Const(k), v) for k, v in extra.items()}, name=a.kwarg.arg)
         self.call_stack.append(fi)
+        while len(self.site_nodes) < len(self.call_stack) - 1:
+            self.site_nodes.append(None)
+        del self.site_nodes[len(self.call_stack) - 1:]
+        self.site_nodes.append(e)
         try:
             # defaults (evaluated in callee module context)
             defaults = a.defaults
